@@ -20,6 +20,8 @@
 EXTENDS Integers, Sequences, FiniteSets
 
 CONSTANTS P, G, N          \* supplied per instantiation (see MC_FftKernels)
+VARIABLE wtab              \* table of the powers of G, computed once by the instantiating module's Init
+                           \* (TLC re-evaluates parameterless definitions on every use; a state variable is evaluated once)
 
 Md(x) == ((x % P) + P) % P
 PowM(b, e) == LET RECURSIVE PW(_, _, _)
@@ -36,7 +38,8 @@ Conj(x) == <<x[2], x[1]>>
 Rl(r) == <<Md(r), Md(r)>>                                   \* a real (rational integer) number
 Zero == <<0, 0>>
 One == <<1, 1>>
-W(k) == LET e == ((k % N) + N) % N IN <<PowM(G, e), PowM(G, (N - e) % N)>>
+WTable == [e \in 1..N |-> <<PowM(G, e - 1), PowM(G, (N - (e - 1)) % N)>>]
+W(k) == wtab[(((k % N) + N) % N) + 1]
 Imag == W(-(N \div 4))                                      \* i
 Half == Rl(Inv(2))
 Cos(k) == Mul(Half, Add(W(k), W(-k)))                       \* real pair
